@@ -1,8 +1,9 @@
 (* C39 -- RenameChoices renames exactly the mapped choices.
    `rename_action` (Model/Choices.v) is the hand-written model of UserActions.RenameChoices with
-   ChoiceColumn.rename_choices / ChoiceListColumn._rename_cell_choice; it is compared with the real engine
-   (apply_user_actions, fetch_table of the table and of _grist_Filters) by harness/props/c39.py on every run.
-   Statements only; proofs are in Proofs/Choices_proofs.v. *)
+   ChoiceColumn.rename_choices / ChoiceListColumn._rename_cell_choice as repaired by /repo commits 789e828 (only
+   actual records are updated) and 9e0465d (only list-valued filter entries are renamed); it is compared with the
+   real engine (apply_user_actions, fetch_table of the table and of _grist_Filters) by harness/props/c39.py on
+   every run.  Statements only; proofs are in Proofs/Choices_proofs.v. *)
 From Coq Require Import ZArith List Bool.
 Import ListNotations.
 Require Import Grist.Lib.PyVal Grist.Model.Choices Grist.Proofs.Choices_proofs.
@@ -10,81 +11,48 @@ Open Scope Z_scope.
 
 (* ------------------------------------------------------------------------------------------------
    The property at full strength: for every table state, column kind, set of saved filters and rename map the
-   action succeeds, the target column becomes the cell-wise simultaneous substitution, the by-value filters
-   of the column become the same substitution, and nothing else changes (in particular a saved filter of
-   another form, such as a range filter, stays as it is). *)
-
-Definition spec_filters_full (ren : renames) (colref : Z) (fs : list (Z * filt)) :=
-  map (fun cf => if Z.eqb (fst cf) colref
-                 then (if well_formed_filter (snd cf) then spec_filter ren (snd cf) else None)
-                 else None) fs.
-
-Definition C39_full_statement : Prop :=
-  forall st cid k is_formula colref ren,
-    rename_action st cid k is_formula colref ren =
-    Ok (spec_cols k ren cid is_formula (s_cols st), spec_filters_full ren colref (s_filters st)).
-
-(* The unchanged code violates it in three ways (all three reproduced on the implementation by the check):
-
-   1. rename_choices walks over every slot of the column's storage, also slot 0 (the empty record) and the
-      slots of removed rows, which hold the default ''.  A mapping with the key '' therefore produces an
-      update for a row id that is not a record and the whole action fails with AssertionError. *)
-Theorem C39_refuted_empty_choice :
-  let st := mkState [0; 1] [([67], [VStr []; VStr []])] [] in           (* column "C" = ['' (slot 0), ''] *)
-  rename_action st [67] Choice false 2 [([], [122])] = Err ErrAssertion. (* {'': 'z'} *)
-Proof. vm_compute. reflexivity. Qed.
-
-(*  2. the filter loop assumes every entry of a saved filter is a list: a range filter {"min": 5} raises
-       TypeError ... *)
-Theorem C39_refuted_range_filter :
-  let st := mkState [0; 1] [([67], [VStr []; VStr [120]])] [(2, FObj [([109; 105; 110], FAtom)])] in
-  rename_action st [67] Choice false 2 [([120], [121])] = Err ErrTypeError.
-Proof. vm_compute. reflexivity. Qed.
-
-(*  3. ... and a relative-date bound {"min": {"quantity": .., "unit": ..}} is silently replaced by the list of
-       its keys (here with a mapping that does not even mention them). *)
-Theorem C39_refuted_relative_bound :
-  let q := [113] in let u := [117] in
-  let st := mkState [0; 1] [([67], [VStr []; VStr [120]])] [(2, FObj [([109; 105; 110], FDict [q; u])])] in
-  rename_action st [67] Choice false 2 [([120], [121])] =
-  Ok ([([67], [VStr []; VStr [121]])], [Some [([109; 105; 110], [VStr q; VStr u])]]).
-Proof. vm_compute. reflexivity. Qed.
-
-Theorem C39_refuted : ~ C39_full_statement.
-Proof.
-  intros H. specialize (H (mkState [0; 1] [([67], [VStr []; VStr []])] []) [67] Choice false 2 [([], [122])]).
-  vm_compute in H. discriminate H.
-Qed.
-
-(* ------------------------------------------------------------------------------------------------
-   What holds for ALL cell contents, filters and mappings. *)
-
-(* The full statement under the narrowest hypotheses that exclude the three defects: no slot that is not a
-   record holds a value the mapping changes (safe_state), and every saved filter of the column is empty or an
-   object of lists (filters_well_formed). *)
-Theorem C39_rename_partial : forall st cid k is_formula colref ren,
-  safe_state st cid k is_formula ren -> filters_well_formed colref (s_filters st) ->
+   action succeeds; the cell of every record in the target column becomes the simultaneous substitution
+   (spec_cols / spec_data / spec_cell); the by-value lists of the column's saved filters become the same
+   substitution, range bounds are kept, a filter is rewritten only when that changes it (spec_filters);
+   nothing else changes.
+   The single hypothesis left: the saved filter texts of THIS column are empty or JSON objects (what the
+   application stores).  It is genuinely needed: see C39_non_object_filter_raises. *)
+Theorem C39_full_statement : forall st cid k is_formula colref ren,
+  filters_are_objects colref (s_filters st) ->
   rename_action st cid k is_formula colref ren =
-  Ok (spec_cols k ren cid is_formula (s_cols st), spec_filters_full ren colref (s_filters st)).
-Proof.
-  intros st cid k f colref ren Hs Hw. rewrite (rename_succeeds st cid k f colref ren Hs Hw). do 2 f_equal.
-  unfold spec_filters, spec_filters_full. apply map_ext_in. intros [cr fl] Hin. simpl.
-  destruct (Z.eqb cr colref) eqn:E; [|reflexivity]. apply Z.eqb_eq in E. rewrite (Hw cr fl Hin E). reflexivity.
-Qed.
+  Ok (spec_cols k ren (s_ids st) cid is_formula (s_cols st), spec_filters ren colref (s_filters st)).
+Proof. exact rename_action_full. Qed.
 
-(* rename_simultaneous.  Whenever the action succeeds - whatever the hypotheses - the columns afterwards are:
-   the target column mapped cell by cell through spec_cell, i.e. ONE lookup of the ORIGINAL content of each
-   Choice cell / each element of a ChoiceList cell (result = map of the substitution, not a sequence of
-   replacements), every other column as it was; a formula column is not rewritten. *)
+(* the only failure: AttributeError, caused by a filter of this column that is JSON but not an object *)
+Theorem C39_failure_cause : forall st cid k is_formula colref ren e,
+  rename_action st cid k is_formula colref ren = Err e ->
+  e = ErrAttributeError /\ In (colref, FNotObj) (s_filters st).
+Proof. exact rename_action_err. Qed.
+
+Example C39_non_object_filter_raises :
+  rename_action (mkState [0; 1] [([67], [VStr []; VStr [120]])] [(2, FNotObj)]) [67] Choice false 2 [([120], [121])]
+  = Err ErrAttributeError.
+Proof. vm_compute. reflexivity. Qed.
+
+(* rename_simultaneous, without any hypothesis: whenever the action succeeds the columns are the specification:
+   the target column mapped record by record through spec_cell, i.e. ONE lookup of the ORIGINAL content of each
+   Choice cell / each element of a ChoiceList cell (a map of the substitution, not a sequence of replacements),
+   every other column as it was; a formula column is not rewritten. *)
 Theorem C39_rename_simultaneous : forall st cid k is_formula colref ren cols' fl',
   rename_action st cid k is_formula colref ren = Ok (cols', fl') ->
-  cols' = spec_cols k ren cid is_formula (s_cols st).
+  cols' = spec_cols k ren (s_ids st) cid is_formula (s_cols st).
 Proof. exact rename_simultaneous. Qed.
 
-Theorem C39_target_column : forall k ren cid cols i data,
+Theorem C39_target_column : forall k ren ids cid cols i data,
   nth_error cols i = Some (cid, data) ->
-  nth_error (spec_cols k ren cid false cols) i = Some (cid, map (spec_cell k ren) data).
+  nth_error (spec_cols k ren ids cid false cols) i = Some (cid, spec_data k ren ids data).
 Proof. exact spec_cols_target. Qed.
+
+(* every record's cell is substituted; slot 0 and the slots of removed rows are left alone *)
+Theorem C39_target_cells : forall k ren ids data j v,
+  nth_error data j = Some v ->
+  nth_error (spec_data k ren ids data) j = Some (if is_record ids j then spec_cell k ren v else v).
+Proof. exact spec_data_nth. Qed.
 
 (* the substitution looks each original value up once: a value that is a key goes to its target even when
    that target is itself a key; in particular swaps work *)
@@ -107,24 +75,22 @@ Proof.
   - intros c Ha Hb. rewrite (H3 c Ha Hb). reflexivity.
 Qed.
 
-(* the saved filters of the column (by-value form): the same substitution on their string elements;
-   rewritten only when it changes something *)
-Theorem C39_filters : forall st cid k is_formula colref ren cols' fl',
-  rename_action st cid k is_formula colref ren = Ok (cols', fl') ->
-  filters_well_formed colref (s_filters st) ->
-  fl' = spec_filters ren colref (s_filters st).
-Proof. exact rename_filters_spec. Qed.
-
+(* the saved filters of the column: same keys in the same order; a list entry is the element-wise substitution,
+   any other entry (range bound) is kept; rewritten only when something changes *)
 Theorem C39_filter_shape : forall ren es,
   map fst (spec_entries ren es) = map fst es /\
-  forall i k e, nth_error es i = Some (k, e) ->
-                nth_error (spec_entries ren es) i = Some (k, map (rename_elem ren) (entry_list e)).
+  (forall i k l, nth_error es i = Some (k, FList l) ->
+                 nth_error (spec_entries ren es) i = Some (k, FList (map (rename_elem ren) l))) /\
+  (forall i k t, nth_error es i = Some (k, FOther t) -> nth_error (spec_entries ren es) i = Some (k, FOther t)).
 Proof. exact spec_entries_shape. Qed.
 
 Theorem C39_filter_rewritten_iff_changed : forall ren f new,
-  spec_filter ren f = Some new ->
-  exists es, f = FObj es /\ new = spec_entries ren es /\ new <> filter_content es.
+  spec_filter ren f = Some new -> exists es, f = FObj es /\ new = spec_entries ren es /\ new <> es.
 Proof. exact spec_filter_changed. Qed.
+
+Theorem C39_range_filter_kept : forall ren es,
+  (forall k e, In (k, e) es -> exists t, e = FOther t) -> spec_filter ren (FObj es) = None.
+Proof. exact spec_filter_range_kept. Qed.
 
 (* rename_frame.  Everything not in the mapping is unchanged: *)
 
@@ -142,12 +108,15 @@ Theorem C39_frame_elements : forall ren l,
              (forall i s, nth_error l i = Some (VStr s) -> ren_get ren s = None -> nth_error l' i = Some (VStr s)).
 Proof. exact spec_cell_elements. Qed.
 
-(* (c) other columns of the table are untouched, no column is added or removed *)
-Theorem C39_frame_columns : forall k ren cid is_formula cols,
-  length (spec_cols k ren cid is_formula cols) = length cols /\
+(* (c) other columns of the table are untouched, no column or row slot is added or removed *)
+Theorem C39_frame_columns : forall k ren ids cid is_formula cols,
+  length (spec_cols k ren ids cid is_formula cols) = length cols /\
   forall i c data, nth_error cols i = Some (c, data) -> c <> cid ->
-                   nth_error (spec_cols k ren cid is_formula cols) i = Some (c, data).
+                   nth_error (spec_cols k ren ids cid is_formula cols) i = Some (c, data).
 Proof. exact spec_cols_other. Qed.
+
+Theorem C39_frame_length : forall k ren ids data, length (spec_data k ren ids data) = length data.
+Proof. exact spec_data_length. Qed.
 
 (* (d) filters of other columns are never touched, whatever they and the filters of this column contain *)
 Theorem C39_frame_other_filters : forall st cid k is_formula colref ren cols' fl',
@@ -162,36 +131,41 @@ Theorem C39_frame_filter_values : forall ren v, in_renames ren v = false -> rena
 Proof. exact rename_elem_miss. Qed.
 
 Theorem C39_frame_filter_untouched : forall ren es,
-  (forall k e v, In (k, e) es -> In v (entry_list e) -> in_renames ren v = false) ->
+  (forall k l v, In (k, FList l) es -> In v l -> in_renames ren v = false) ->
   spec_filter ren (FObj es) = None.
 Proof. exact spec_filter_untouched. Qed.
 
-(* The only way the data half fails: an effective rename of a slot that is not a record. *)
-Theorem C39_failure_cause : forall k ren ids data e,
-  rename_column k ren ids data = Err e ->
-  e = ErrAssertion /\ exists i v n, nth_error data i = Some v /\ rename_cell k ren v = Some n /\ n <> v /\
-                                    is_record ids i = false.
-Proof. exact rename_column_err. Qed.
-
 (* ------------------------------------------------------------------------------------------------
-   Non-vacuity: a state satisfying both hypotheses of C39_rename_partial on which the action does something:
-   rows 1,2 live (row 3 removed), Choice column C = [x, y], other column D, the swap {x:y, y:x}, one by-value
-   filter on the column (rewritten), one on another column and an empty one (untouched).  A sequential
-   replacement would have produced [x, x] or [y, y]. *)
+   Regression examples: the three inputs on which the code failed before commits 789e828 / 9e0465d. *)
+
+(* {'': 'z'} on a Choice column: the record's empty cell is renamed, slot 0 keeps its default '' *)
+Example C39_empty_choice_ok :
+  rename_action (mkState [0; 1] [([67], [VStr []; VStr []])] []) [67] Choice false 2 [([], [122])]
+  = Ok ([([67], [VStr []; VStr [122]])], []).
+Proof. vm_compute. reflexivity. Qed.
+
+(* a range filter {"min": 5} (FOther 0) and a relative-date bound (FOther 1) on the column are not touched *)
+Example C39_range_filter_kept_example :
+  let st := mkState [0; 1] [([67], [VStr []; VStr [120]])]
+                    [(2, FObj [([109; 105; 110], FOther 0)]); (2, FObj [([109; 105; 110], FOther 1); ([105], FList [VStr [120]])])] in
+  rename_action st [67] Choice false 2 [([120], [121])] =
+  Ok ([([67], [VStr []; VStr [121]])], [None; Some [([109; 105; 110], FOther 1); ([105], FList [VStr [121]])]]).
+Proof. vm_compute. reflexivity. Qed.
+
+(* Non-vacuity of C39_full_statement: rows 1,2 live (row 3 removed), Choice column C = [x, y], other column D,
+   the swap {x:y, y:x}, one by-value filter on the column (rewritten), one on another column and an empty one
+   (untouched).  A sequential replacement would have produced [x, x] or [y, y]. *)
 Example C39_nonvacuous :
   let x := [120] in let y := [121] in
   let st := mkState [0; 1; 2; 0] [([67], [VStr []; VStr x; VStr y; VStr []]); ([68], [VStr []; VStr x; VStr x; VStr []])]
                     [(2, FObj [([105], FList [VStr x; VInt 1; VStr [113]])]); (3, FObj [([105], FList [VStr x])]); (2, FEmpty)] in
   let ren := [(x, y); (y, x)] in
-  safe_state st [67] Choice false ren /\ filters_well_formed 2 (s_filters st) /\
+  filters_are_objects 2 (s_filters st) /\
   rename_action st [67] Choice false 2 ren =
   Ok ([([67], [VStr []; VStr y; VStr x; VStr []]); ([68], [VStr []; VStr x; VStr x; VStr []])],
-      [Some [([105], [VStr y; VInt 1; VStr [113]])]; None; None]).
+      [Some [([105], FList [VStr y; VInt 1; VStr [113]])]; None; None]).
 Proof.
-  cbv zeta. split; [|split].
-  - intros _ c data Hin Heq. destruct Hin as [H|[H|[]]]; injection H as <- <-.
-    + eapply rename_column_ok_safe. vm_compute. reflexivity.
-    + vm_compute in Heq. discriminate.
+  cbv zeta. split.
   - intros cr f Hin _. destruct Hin as [H|[H|[H|[]]]]; injection H as <- <-; reflexivity.
   - vm_compute. reflexivity.
 Qed.
